@@ -68,6 +68,77 @@ theorem findIdx_none {p : Sub → Bool} {l : List Sub} (h : findIdx p l = none) 
         | tail _ hm => exact ih hr s hm
       | some j => simp [hr] at h
 
+/-! ### typed ids: the embedding into keys is injective -/
+
+theorem pow2_odd_inj : ∀ (a b k l : Nat), 2 ^ a * (2 * k + 1) = 2 ^ b * (2 * l + 1) → a = b ∧ k = l := by
+  intro a
+  induction a with
+  | zero =>
+    intro b k l h
+    cases b with
+    | zero => simp at h; exact ⟨rfl, by omega⟩
+    | succ b =>
+      exfalso
+      rw [Nat.pow_succ] at h
+      have : 2 ^ b * 2 * (2 * l + 1) = 2 * (2 ^ b * (2 * l + 1)) := by
+        rw [Nat.mul_comm (2 ^ b) 2, Nat.mul_assoc]
+      rw [this] at h
+      simp at h
+      omega
+  | succ a ih =>
+    intro b k l h
+    cases b with
+    | zero =>
+      exfalso
+      rw [Nat.pow_succ] at h
+      have : 2 ^ a * 2 * (2 * k + 1) = 2 * (2 ^ a * (2 * k + 1)) := by
+        rw [Nat.mul_comm (2 ^ a) 2, Nat.mul_assoc]
+      rw [this] at h
+      simp at h
+      omega
+    | succ b =>
+      rw [Nat.pow_succ, Nat.pow_succ] at h
+      have e1 : 2 ^ a * 2 * (2 * k + 1) = 2 * (2 ^ a * (2 * k + 1)) := by
+        rw [Nat.mul_comm (2 ^ a) 2, Nat.mul_assoc]
+      have e2 : 2 ^ b * 2 * (2 * l + 1) = 2 * (2 ^ b * (2 * l + 1)) := by
+        rw [Nat.mul_comm (2 ^ b) 2, Nat.mul_assoc]
+      rw [e1, e2] at h
+      have h' : 2 ^ a * (2 * k + 1) = 2 ^ b * (2 * l + 1) := by omega
+      obtain ⟨r1, r2⟩ := ih b k l h'
+      exact ⟨by omega, r2⟩
+
+theorem codeText_pos (c : Nat) (r : Text) : codeText (c :: r) > 0 := by
+  simp only [codeText]
+  exact Nat.mul_pos (Nat.pow_pos (by omega)) (by omega)
+
+theorem codeText_injective : ∀ (s t : Text), codeText s = codeText t → s = t := by
+  intro s
+  induction s with
+  | nil =>
+    intro t h
+    cases t with
+    | nil => rfl
+    | cons c r => have := codeText_pos c r; rw [← h] at this; simp [codeText] at this
+  | cons a r ih =>
+    intro t h
+    cases t with
+    | nil => have := codeText_pos a r; rw [h] at this; simp [codeText] at this
+    | cons b q =>
+      simp only [codeText] at h
+      obtain ⟨e1, e2⟩ := pow2_odd_inj a b _ _ h
+      rw [e1, ih q e2]
+
+/-- different typed ids are different keys; in particular `Num n` and `Str "n"` never coincide -/
+theorem idKey_injective (a b : SubId) (h : idKey a = idKey b) : a = b := by
+  cases a <;> cases b <;> simp only [idKey] at h
+  · congr; omega
+  · omega
+  · omega
+  · congr; exact codeText_injective _ _ (by omega)
+
+theorem idKey_num_ne_str (n : Nat) (s : Text) : idKey (.num n) ≠ idKey (.str s) := by
+  simp only [idKey]; omega
+
 /-! ### the invariant -/
 
 /-- per-subscription facts -/
@@ -602,6 +673,16 @@ theorem inv_step {st : State} (h : Inv st) (op : Op) : Inv (step st op).1 := by
   | handlerReturn k r => exact inv_return h k r
   | taskStep k => exact inv_task h k
   | unsubscribe c m x rid => exact inv_unsubscribe h c m x rid
+  | unsubscribeBad c rid =>
+    simp only [step, doUnsubscribeBad]
+    split
+    · exact h
+    · rename_i cn hc
+      split
+      · exact h
+      · split
+        · exact h
+        · exact inv_putConn h hc rfl rfl
   | connClose c => exact inv_connClose h c
   | stop => exact inv_stop h
   | connFinish c => exact inv_connFinish h c
@@ -880,6 +961,15 @@ theorem clean_step {st : State} (hi : Inv st) (h : Clean st) (op : Op) (hf : idF
             rw [hs]
             have hl : lookup st k = some (s, cn) := by simp [lookup, hs, hp.1.1.1, hc]
             exact clean_put h hl rfl rfl rfl (by simp [Sub.live, hp.2]) (by simpa using h.noDispl s (lookup_mem hl))
+  | unsubscribeBad c rid =>
+    simp only [step, doUnsubscribeBad]
+    split
+    · exact h
+    · split
+      · exact h
+      · split
+        · exact h
+        · exact clean_conns h _
   | connClose c =>
     simp only [step, doConnClose]
     split
